@@ -17,10 +17,10 @@ VARIABLES envs, progs, hist, out
 vars == <<envs, progs, hist, out>>
 Runners == {"I", "C"}
 Decls == {"none", "dotted", "xint", "pkg"}
-Exprs == {"const", "var", "dotref", "macro", "has", "cond", "sizeplain", "sizeov", "twiceplain", "twiceov", "tzplus", "tzminus"}
+Exprs == {"const", "var", "dotref", "macro", "has", "cond", "sizeplain", "sizeov", "twiceplain", "twiceov", "tzplus", "tzminus", "hasdiv"}
 \* sizeplain / twiceplain: size("h\u00e9llo") and twice(21) in a program built WITHOUT application functions;
 \* sizeov / twiceov: the same texts in a program built with functions = [size (UTF-8 octets, overriding the built-in), twice]
-Bindings == {"empty", "x1", "xneg", "ab7", "ab8x2", "mf", "amap", "amapab"}
+Bindings == {"empty", "x1", "xneg", "ab7", "ab8x2", "mf", "mf0", "amap", "amapab"}
 I(n) == IntV(FromInt(n))
 nA == <<97>>  nB == <<98>>  nM == <<109>>  nF == <<102>>  nX == <<120>>
 BindingOf(b) == CASE b = "empty" -> <<>>
@@ -29,6 +29,7 @@ BindingOf(b) == CASE b = "empty" -> <<>>
                   [] b = "ab7" -> << <<<<nA, nB>>, I(7)>> >>
                   [] b = "ab8x2" -> << <<<<nA, nB>>, I(8)>>, <<<<nX>>, I(2)>> >>
                   [] b = "mf" -> << <<<<nM>>, Map(<< <<Str(nF), I(1)>> >>)>> >>
+                  [] b = "mf0" -> << <<<<nM>>, Map(<< <<Str(nF), I(0)>> >>)>> >>       \* the binding on which "hasdiv" fails: a failed call must leave nothing behind either
                   [] b = "amap" -> << <<<<nA>>, Map(<< <<Str(nB), I(9)>> >>)>> >>
                   [] b = "amapab" -> << <<<<nA>>, Map(<< <<Str(nB), I(9)>> >>)>>, <<<<nA, nB>>, I(7)>> >>      \* the map first, then the dotted name
 X == Var("x")
@@ -47,6 +48,8 @@ Outcome(d, e, b) ==
     [] e = "dotref" -> Ref(d, bs, <<nA, nB>>)
     [] e = "macro" -> Eval(Macro("map", Lit(List(<<I(1), I(2)>>)), "x", Bin("+", X, Lit(I(1)))), env)
     [] e = "has" -> (IF IsBound(bs, <<nM>>) THEN Eval(Has(Var("m"), nF), env) ELSE Indef)
+    \* has(m.f) ? 10 / m.f : -1 -- an evaluation error on m = {f: 0}, a value on other maps; m unbound: only "same as alone"
+    [] e = "hasdiv" -> (IF IsBound(bs, <<nM>>) THEN Eval(CondE(Has(Var("m"), nF), Bin("/", Lit(I(10)), Sel(Var("m"), nF)), Lit(I(-1))), env) ELSE Indef)
     [] e = "sizeplain" -> I(5)                 \* the built-in: code points
     [] e = "sizeov" -> I(6)                    \* this program's own function
     [] e = "twiceplain" -> Err                 \* no such function in THIS program, whatever other programs were given
